@@ -225,6 +225,9 @@ func Render(c *Case) map[string]string {
 	if has("extend") {
 		fmt.Fprintf(&sb, "\nextend Top {\n  %sint32 ext1 = 100;\n  repeated string ext2 = 101;\n}\n", lbl)
 	}
+	if has("extgroup") {
+		sb.WriteString("\nextend Top {\n  optional group ExtGrp = 150 {\n    optional int32 eg = 1;\n  }\n}\nmessage ExtHolder {\n  extend Top {\n    optional group NestedExtGrp = 151 {\n      optional int32 neg = 1;\n    }\n  }\n}\n")
+	}
 	if has("service") {
 		sb.WriteString("\nmessage Req {}\nmessage Resp {}\n")
 		if has("comments") {
@@ -304,6 +307,9 @@ func MeasuredKinds(fd *descriptorpb.FileDescriptorProto) map[string]bool {
 		}
 		if f.GetType() == descriptorpb.FieldDescriptorProto_TYPE_GROUP {
 			k["group"] = true
+			if ext {
+				k["group_in_extend"] = true
+			}
 		}
 		if f.GetLabel() == descriptorpb.FieldDescriptorProto_LABEL_REQUIRED {
 			k["required"] = true
